@@ -13,6 +13,8 @@ pub mod h_content;
 pub mod h_plat;
 pub mod h_locks;
 pub mod h_dm;
+#[cfg(feature = "xml")]
+pub mod h_xml;
 
 pub use vnd::*;
 
@@ -27,5 +29,7 @@ pub fn run_harness(name: &str) -> bool {
     if h_plat::run(name) { return true; }
     if h_locks::run(name) { return true; }
     if h_dm::run(name) { return true; }
+    #[cfg(feature = "xml")]
+    if h_xml::run(name) { return true; }
     false
 }
